@@ -15,8 +15,9 @@ Fixpoint vmismatches (i : nat) (cs : list vcase) : list nat :=
 (* 0 = every demanded predicate holds; otherwise the first one that fails *)
 Definition verdict (s : switches) (p : node) : nat :=
   if sw_no_use_site s && negb (chk_no_use_site p) then
-    (* 11: every projection that occurs is a bounded covariant one (the shape produced by to_type_variable_free) *)
-    (if forallb (fun t => match t with TWild Cov (Some _) => true | TWild _ _ => false | _ => true end) (type_occurrences p) then 11 else 1)
+    (* 11: every projection that occurs is a bounded covariant one or an unbounded star (the two shapes produced by
+       _to_type_variable_free: 'out Bound' for a bounded variable, '*' at a contravariant position) *)
+    (if forallb (fun t => match t with TWild Cov (Some _) => true | TWild Inv None => true | TWild _ _ => false | _ => true end) (type_occurrences p) then 11 else 1)
   else if sw_no_contra s && negb (chk_no_contra p) then 2
   else if sw_no_bounds s && negb (chk_no_bounds p) then 3
   else if sw_no_param_funcs s && negb (chk_no_param_funcs p) then 4
